@@ -22,7 +22,7 @@ pub fn gen_opts(s: &mut Src) -> Opts {
     if s.chance(1, 4) {
         Opts { insert_spaces: false, tab_size: s.below(9) as u32 }
     } else {
-        Opts { insert_spaces: true, tab_size: *s.pick(&[4u32, 2, 0, 1, 3, 8, 5, 6, 7]) }
+        Opts { insert_spaces: true, tab_size: *s.pick(&[4u32, 2, 0, 1, 3, 8, 5, 6, 7, 10, 16, 33]) }
     }
 }
 
